@@ -1278,14 +1278,26 @@ func c10ParserFillsGuards(r *an.Run, f *ssa.Function, al *ssa.Alloc) {
 			}
 			switch fieldNameOf(fa) {
 			case "Package":
-				if s, isc := an.ConstString(st.Val); isc && s == "" {
-					continue // the fake package clause is cleared (R5)
+				// every value the field may receive is the parsed package name or "" (the fake clause, R5)
+				named := 0
+				allOK := true
+				for _, leaf := range phiLeaves(st.Val) {
+					if s, isc := an.ConstString(leaf); isc && s == "" {
+						continue
+					}
+					if loadsFieldOf(leaf, "Name", func(x ssa.Value) bool {
+						return an.IsNamed(x.Type().Underlying().(*types.Pointer).Elem(), "go/ast", "Ident") && loadsFieldOf(x, "Name", func(y ssa.Value) bool {
+							return an.IsNamed(y.Type().Underlying().(*types.Pointer).Elem(), "go/ast", "File")
+						})
+					}) {
+						named++
+						continue
+					}
+					allOK = false
 				}
-				pkgOK = loadsFieldOf(st.Val, "Name", func(x ssa.Value) bool {
-					return an.IsNamed(x.Type().Underlying().(*types.Pointer).Elem(), "go/ast", "Ident") && loadsFieldOf(x, "Name", func(y ssa.Value) bool {
-						return an.IsNamed(y.Type().Underlying().(*types.Pointer).Elem(), "go/ast", "File")
-					})
-				})
+				if named > 0 {
+					pkgOK = allOK
+				}
 			case "Imports":
 				impOK = loadsFieldOf(st.Val, "Imports", func(x ssa.Value) bool {
 					return an.IsNamed(x.Type().Underlying().(*types.Pointer).Elem(), "go/ast", "File")
@@ -1401,10 +1413,13 @@ func c05FileIdentity(r *an.Run) {
 	}
 	f := m.run
 	// the tree that is patched is the parse of what was read under this name
-	r.Check(sameFileValue(m.parse.Call.Args[1], m.filename), short(f)+"|parse-name", m.parse.Pos(), "the file is parsed under the name it was read from")
+	parseName := m.parse.Call.Args[1]
+	if p, ok := an.Unwrap(parseName).(*ssa.Parameter); ok && p.Parent() != f && an.Actual(p) != nil {
+		parseName = an.Actual(p)
+	}
+	r.Check(sameFileValue(parseName, m.filename), short(f)+"|parse-name", m.parse.Pos(), "the file is parsed under the name it was read from")
 	applyArgs := m.apply.Call.Args
-	parsed := an.ExtractOf(m.parse, 0)
-	r.Check(len(parsed) > 0 && an.Unwrap(applyArgs[len(applyArgs)-1]) == ssa.Value(parsed[0]), short(f)+"|apply-tree", m.apply.Pos(), "the patches are applied to the tree parsed from this file's bytes in this iteration")
+	r.Check(an.Unwrap(applyArgs[len(applyArgs)-1]) == m.parsed, short(f)+"|apply-tree", m.apply.Pos(), "the patches are applied to the tree parsed from this file's bytes in this iteration")
 	r.Check(sameFileValue(applyArgs[len(applyArgs)-2], m.filename), short(f)+"|apply-name", m.apply.Pos(), "and under this file's name")
 	// what is printed is the tree Apply returned
 	n := 0
@@ -1856,4 +1871,26 @@ func boolStr(b bool) string {
 		return "x"
 	}
 	return ""
+}
+
+// phiLeaves returns the non-phi values v may be, following phis.
+func phiLeaves(v ssa.Value) []ssa.Value {
+	seen := map[ssa.Value]bool{}
+	var out []ssa.Value
+	var visit func(ssa.Value)
+	visit = func(x ssa.Value) {
+		if seen[x] {
+			return
+		}
+		seen[x] = true
+		if p, ok := x.(*ssa.Phi); ok {
+			for _, e := range p.Edges {
+				visit(e)
+			}
+			return
+		}
+		out = append(out, x)
+	}
+	visit(v)
+	return out
 }
